@@ -91,6 +91,17 @@ func c20Gen(r *rand.Rand, constantPrices bool) c20Journal {
 				continue
 			}
 			j.Dirs = append(j.Dirs, gen.Dir{Kind: gen.KTxn, Date: d, Desc: "transfer", Bookings: []gen.Booking{{Credit: a, Debit: b, Qty: fmt.Sprintf("%d", 1+r.Intn(100)), Com: cm}}})
+		case r.Intn(5) == 0 && held[v]:
+			// a fee or a dividend with a @performance annotation: the return of its own
+			// period is not judged, but it must not leak into later periods
+			t := gen.Dir{Kind: gen.KTxn, Date: d, Desc: "annotated", HasPerf: true}
+			if r.Intn(2) == 0 {
+				t.Bookings = []gen.Booking{{Credit: al[0], Debit: "Expenses:Living", Qty: fmt.Sprintf("%d", 1+r.Intn(50)), Com: v}}
+			} else {
+				t.Perf = []string{coms[r.Intn(len(coms))]}
+				t.Bookings = []gen.Booking{{Credit: "Income:Salary", Debit: al[0], Qty: fmt.Sprintf("%d", 1+r.Intn(50)), Com: v}}
+			}
+			j.Dirs = append(j.Dirs, t)
 		case r.Intn(3) == 0 && len(al) == 4:
 			// borrowing on the card: liability grows, expense outside the portfolio
 			j.Dirs = append(j.Dirs, gen.Dir{Kind: gen.KTxn, Date: d, Desc: "card", Bookings: []gen.Booking{{Credit: "Liabilities:Card", Debit: "Expenses:Living", Qty: fmt.Sprintf("%d", 1+r.Intn(300)), Com: v}}})
@@ -627,6 +638,17 @@ func (k *c20) returns(c *core.Ctx, i int, dir string, w c20Journal, r *rand.Rand
 			if d.Kind == gen.KPrice && d.Date >= p.Start && d.Date <= p.End && d.Date > w.dates[0] && d.Com != "ZZZ" {
 				priceMove = true
 			}
+		}
+		annotated := false
+		for _, d := range w.j.Dirs {
+			if d.Kind == gen.KTxn && d.HasPerf && d.Date >= p.Start && d.Date <= p.End {
+				annotated = true
+			}
+		}
+		if annotated {
+			// a @performance annotation changes how the flow is attributed: not one of the two pinned families
+			c.Count("returns_periods_not_judged", 1)
+			continue
 		}
 		vStart, ok1 := value(p.Start - 1)
 		vEnd, ok2 := value(p.End)
